@@ -113,6 +113,9 @@ func genScenario(r *Rng, maxMsgs, maxRcpts int) *SmtpScenario {
 	if r.Chance(50) {
 		sc.Variant = r.U64() | 1
 	}
+	if r.Chance(6) {
+		sc.CtxCancelInMsg = 1 + r.Intn(len(sc.Msgs))
+	}
 	return sc
 }
 
